@@ -234,9 +234,102 @@ func (g *G) object() string {
 // termQ: a query usable as an object value (no bare comma/pipe at top level).
 func (g *G) termQ() string { return "(" + g.Query() + ")" }
 
+// Pattern generates a destructuring pattern of the full pattern grammar and the variables it binds.
+func (g *G) Pattern(depth int) (string, []string) {
+	r := g.R
+	v := func() string { return "$" + g.fresh("p") }
+	if depth <= 0 {
+		x := v()
+		return x, []string{x}
+	}
+	switch r.Intn(8) {
+	case 0, 1:
+		x := v()
+		return x, []string{x}
+	case 2, 3:
+		n := r.Range(1, 3)
+		var ps, vs []string
+		for i := 0; i < n; i++ {
+			p, w := g.Pattern(depth - 1)
+			ps = append(ps, p)
+			vs = append(vs, w...)
+		}
+		return "[" + strings.Join(ps, ", ") + "]", vs
+	default:
+		n := r.Range(1, 2)
+		var ps, vs []string
+		for i := 0; i < n; i++ {
+			k := common.Pick(r, keys)
+			switch r.Intn(6) {
+			case 0: // {$a}
+				ps = append(ps, "$"+k)
+				vs = append(vs, "$"+k)
+			case 1: // {$a: pat}
+				p, w := g.Pattern(depth - 1)
+				ps = append(ps, "$"+k+": "+p)
+				vs = append(append(vs, "$"+k), w...)
+			case 2: // {"a": pat}
+				p, w := g.Pattern(depth - 1)
+				ps = append(ps, "\""+k+"\": "+p)
+				vs = append(vs, w...)
+			case 3: // {(expr): pat}
+				p, w := g.Pattern(depth - 1)
+				ps = append(ps, "("+common.Pick(r, []string{"\"a\"", "\"b\"", "\"a\", \"b\"", ".x // \"a\"", "keys[0]?"})+"): "+p)
+				vs = append(vs, w...)
+			case 4: // {"k\(e)": pat}
+				p, w := g.Pattern(depth - 1)
+				ps = append(ps, "\"\\(\"a\")\": "+p)
+				vs = append(vs, w...)
+			default: // {a: pat}
+				p, w := g.Pattern(depth - 1)
+				ps = append(ps, k+": "+p)
+				vs = append(vs, w...)
+			}
+		}
+		return "{" + strings.Join(ps, ", ") + "}", vs
+	}
+}
+
+// altBind: `src as p1 ?// p2 ?// p3 | body` where the body reads every variable of every alternative
+// (an abandoned alternative must leave its variables null) and may raise an error per alternative.
+func (g *G) altBind() string {
+	r := g.R
+	s := g.sub()
+	n := r.Range(1, 3)
+	var ps []string
+	seen := map[string]bool{}
+	var all []string
+	for i := 0; i < n; i++ {
+		p, vs := g.Pattern(r.Range(0, 2))
+		ps = append(ps, p)
+		for _, v := range vs {
+			if !seen[v] {
+				seen[v] = true
+				all = append(all, v)
+			}
+		}
+	}
+	// share variable names between alternatives sometimes
+	if n > 1 && r.Bool() && len(all) > 1 {
+		ps[n-1] = all[0]
+	}
+	body := "[" + strings.Join(all, ", ") + "]"
+	switch r.Intn(4) {
+	case 0:
+		body = "if (" + all[0] + " | type) == \"number\" then error(\"n\") else " + body + " end"
+	case 1:
+		body += " | " + s.Query()
+	}
+	src := common.Pick(r, []string{".", "(., [.])", "[., 1]", "{a: ., b: [.]}", ".[]?", "[[.]]", "{a: {b: .}}", s.Query()})
+	return "(" + src + ") as " + strings.Join(ps, " ?// ") + " | " + body
+}
+
 func (g *G) bind() string {
 	r := g.R
 	s := g.sub()
+	if r.Chance(1, 2) {
+		return g.altBind()
+	}
 	switch r.Intn(4) {
 	case 0:
 		v := "$" + g.fresh("v")
